@@ -14,6 +14,7 @@ import (
 type c11 struct {
 	base
 	nEnum, nUnknown, nRand int
+	nRec                   int
 }
 
 func init() { fw.Register("C11", func() fw.Property { return &c11{} }) }
@@ -22,18 +23,70 @@ func (p *c11) ID() string       { return "C11" }
 func (p *c11) Exhaustive() bool { return true }
 
 var (
-	c11Forms = []string{"_self.m", "alias.m", "from-import m", "from-import m as n"}
-	c11Uses  = []string{"print", "set", "concat", "argument-of-call", "in-loop", "in-capture"}
+	c11Forms = []string{"_self.m", "alias.m", "from-import m", "from-import m as n", "from-import m as <name of a registered function>"}
+	c11Uses  = []string{"print", "set", "concat", "argument-of-call", "in-loop", "in-capture", "twice-in-a-row", "in-loop-then-after", "import-computed-in-loop"}
 )
 
 func (p *c11) Init(tier string, seed int64) {
 	p.tier, p.seed = tier, seed
 	p.nEnum = 5 * 7 * len(c11Forms) * len(c11Uses)
 	p.nUnknown = 6
+	p.nRec = 5 * 3 * 2
 	p.nRand = p.pick(6000, 200000)
 }
 
-func (p *c11) N() int { return p.nEnum + p.nUnknown + p.nRand }
+func (p *c11) N() int { return p.nEnum + p.nUnknown + p.nRec + p.nRand }
+
+// buildRec: terminating recursion. Every level reads its own parameters again after the inner call has
+// returned, so an activation record shared between the calls of one macro shows.
+func (p *c11) buildRec(j int) (*Program, string) {
+	depth := j % 5
+	j /= 5
+	shape := j % 3
+	home := j / 3 // 0: defined in main, called through _self; 1: defined in lib, calling itself through an import
+	callSelf := func(name string, args ...gen.Expr) gen.Expr {
+		if home == 0 {
+			return &gen.EMethod{X: nm("_self"), Name: name, Args: args}
+		}
+		return &gen.EMethod{X: nm("LL"), Name: name, Args: args}
+	}
+	pre := func() []gen.Node {
+		if home == 0 {
+			return nil
+		}
+		return []gen.Node{&gen.NImport{Tpl: str("lib"), Alias: "LL"}}
+	}
+	dec := &gen.EBin{Op: "-", L: nm("n"), R: num(1)}
+	pos := &gen.EBin{Op: ">", L: nm("n"), R: num(0)}
+	var defs []gen.Node
+	switch shape {
+	case 0: // linear
+		body := append(pre(), tx("<"), pr(nm("n")), tx(","), pr(nm("tag")), pr(&gen.ECall{Fn: "fn", Args: []gen.Expr{nm("n")}}),
+			&gen.NIf{Conds: []gen.Expr{pos}, Bodies: [][]gen.Node{{pr(callSelf("rec", dec, &gen.EBin{Op: "~", L: nm("tag"), R: str("x")}))}}},
+			tx(";"), pr(nm("n")), tx(","), pr(nm("tag")), tx(">"))
+		defs = append(defs, &gen.NMacro{Name: "rec", Params: []string{"n", "tag"}, Body: body})
+	case 1: // two inner calls
+		body := append(pre(), tx("("), pr(nm("n")),
+			&gen.NIf{Conds: []gen.Expr{pos}, Bodies: [][]gen.Node{{pr(callSelf("rec", dec, str("L"))), tx("^"), pr(nm("n")), pr(nm("tag")), tx("^"), pr(callSelf("rec", dec, str("R")))}}},
+			tx(":"), pr(nm("n")), pr(nm("tag")), tx(")"))
+		defs = append(defs, &gen.NMacro{Name: "rec", Params: []string{"n", "tag"}, Body: body})
+	default: // mutual
+		a := append(pre(), tx("a"), pr(nm("n")), &gen.NIf{Conds: []gen.Expr{pos}, Bodies: [][]gen.Node{{pr(callSelf("recb", dec, nm("n")))}}}, tx("/a"), pr(nm("n")), pr(nm("tag")))
+		b := append(pre(), tx("b"), pr(nm("n")), &gen.NIf{Conds: []gen.Expr{pos}, Bodies: [][]gen.Node{{pr(callSelf("rec", dec, nm("n")))}}}, tx("/b"), pr(nm("n")), pr(nm("tag")))
+		defs = append(defs, &gen.NMacro{Name: "rec", Params: []string{"n", "tag"}, Body: a}, &gen.NMacro{Name: "recb", Params: []string{"n", "tag"}, Body: b})
+	}
+	ts := map[string]*gen.Template{}
+	var main []gen.Node
+	if home == 0 {
+		main = append(main, defs...)
+		main = append(main, tx("["), pr(&gen.EMethod{X: nm("_self"), Name: "rec", Args: []gen.Expr{num(depth), str("t")}}), tx("]"))
+	} else {
+		ts["lib"] = tpl("lib", defs...)
+		main = append(main, &gen.NImport{Tpl: str("lib"), Alias: "L"}, tx("["), pr(&gen.EMethod{X: nm("L"), Name: "rec", Args: []gen.Expr{num(depth), str("t")}}), tx("]"))
+	}
+	ts["main"] = tpl("main", main...)
+	return &Program{Templates: ts, Main: "main", Ctx: map[string]interface{}{}}, fmt.Sprintf("recursion/depth=%d/shape=%d/home=%d", depth, shape, home)
+}
 
 func c11macro(name string, nparams int, extra ...gen.Node) *gen.NMacro {
 	m := &gen.NMacro{Name: name}
@@ -76,8 +129,11 @@ func c11call(form int, name string, args []gen.Expr) (setup []gen.Node, call gen
 		return []gen.Node{&gen.NImport{Tpl: str("lib"), Alias: "L"}}, &gen.EMethod{X: nm("L"), Name: name, Args: args}
 	case 2:
 		return []gen.Node{&gen.NFrom{Tpl: str("lib"), Names: [][2]string{{name, name}}}}, &gen.ECall{Fn: name, Args: args}
-	default:
+	case 3:
 		return []gen.Node{&gen.NFrom{Tpl: str("lib"), Names: [][2]string{{name, "ren_" + name}}}}, &gen.ECall{Fn: "ren_" + name, Args: args}
+	default:
+		// the local name is also the name of a registered function: the import wins
+		return []gen.Node{&gen.NFrom{Tpl: str("lib"), Names: [][2]string{{name, "ident"}}}}, &gen.ECall{Fn: "ident", Args: args}
 	}
 }
 
@@ -93,9 +149,15 @@ func c11use(use int, call gen.Expr) []gen.Node {
 		return []gen.Node{tx("<"), pr(&gen.ECall{Fn: "fn", Args: []gen.Expr{str("outer"), call}}), tx("/"), pr(&gen.EFilter{X: call, Name: "wrap"}), tx(">")}
 	case 4:
 		return []gen.Node{tx("<"), &gen.NFor{Val: "i", Seq: &gen.EGroup{X: &gen.EBin{Op: "..", L: num(1), R: num(2)}}, Body: []gen.Node{pr(nm("i")), tx(":"), pr(call), tx(";")}}, tx(">")}
-	default:
+	case 5:
 		return []gen.Node{&gen.NSetCap{Name: "cp", Body: []gen.Node{tx("X"), pr(call), tx("Y")}}, tx("<"), pr(nm("cp")), tx(">"),
 			&gen.NFilter{Filters: []string{"b1"}, Body: []gen.Node{pr(call)}}}
+	case 6:
+		// the same call twice with nothing in between: the body runs twice
+		return []gen.Node{tx("<"), pr(call), pr(call), tx("|"), pr(&gen.EBin{Op: "~", L: call, R: call}), tx(">")}
+	default:
+		// in a loop, and again right after the loop has ended
+		return []gen.Node{tx("<"), &gen.NFor{Val: "i", Seq: &gen.EGroup{X: &gen.EBin{Op: "..", L: num(1), R: num(2)}}, Body: []gen.Node{pr(call)}}, tx("/"), pr(call), pr(call), tx(">")}
 	}
 }
 
@@ -115,6 +177,27 @@ func (p *c11) buildEnum(i int) (*Program, string) {
 		main = append(main, m)
 	} else {
 		ts["lib"] = tpl("lib", c11macro("other", 1), m, tx("LIBTEXT-not-rendered"))
+	}
+	if use == 8 && form != 0 {
+		// one import statement executed three times, naming another library each time
+		m2 := c11macro("m", nparams, tx("@lib2"))
+		ts["lib2"] = tpl("lib2", m2)
+		imp := setup[0]
+		switch n := imp.(type) {
+		case *gen.NImport:
+			n.Tpl = nm("which")
+		case *gen.NFrom:
+			n.Tpl = nm("which")
+		}
+		loop := &gen.NFor{Val: "which", Seq: &gen.EArr{Els: []gen.Expr{str("lib"), str("lib2"), str("lib")}},
+			Body: []gen.Node{imp, tx("<"), pr(nm("which")), tx(":"), pr(call), tx(">")}}
+		main = append(main, loop)
+		ts["main"] = tpl("main", main...)
+		return &Program{Templates: ts, Main: "main", Ctx: map[string]interface{}{}},
+			fmt.Sprintf("params=%d/args=%d/%s/%s", nparams, nargs, c11Forms[form], c11Uses[use])
+	}
+	if use == 8 {
+		use = 6
 	}
 	main = append(main, setup...)
 	main = append(main, c11use(use, call)...)
@@ -203,7 +286,7 @@ func (p *c11) buildRand(i int) (*Program, string) {
 		}
 		setup, call := c11call(form, d.name, args)
 		main = append(main, setup...)
-		use := r.Intn(len(c11Uses))
+		use := r.Intn(8)
 		main = append(main, c11use(use, call)...)
 		sig = append(sig, fmt.Sprintf("%d/%d/%s/%s", d.params, nargs, c11Forms[form], c11Uses[use]))
 	}
@@ -230,6 +313,8 @@ func (p *c11) build(i int) (*Program, string) {
 		return p.buildEnum(i)
 	case i < p.nEnum+p.nUnknown:
 		return p.buildUnknown(i - p.nEnum)
+	case i < p.nEnum+p.nUnknown+p.nRec:
+		return p.buildRec(i - p.nEnum - p.nUnknown)
 	}
 	return p.buildRand(i)
 }
@@ -256,7 +341,7 @@ func (p *c11) Run(i int) (res fw.Result) {
 		use := i % len(c11Uses)
 		rest := i / len(c11Uses)
 		form := rest % len(c11Forms)
-		if form != 0 {
+		if form != 0 && use != 8 {
 			j := (rest-form)*len(c11Uses) + use
 			p0, _ := p.buildEnum(j)
 			lib0 := runLib(p0, gen.Canon{}, false)
@@ -266,14 +351,14 @@ func (p *c11) Run(i int) (res fw.Result) {
 			}
 		}
 		res.UniqueNT = 1
-	} else if i >= p.nEnum+p.nUnknown {
+	} else if i >= p.nEnum+p.nUnknown+p.nRec {
 		res.Sigs = append(res.Sigs, sig)
 	}
 	return
 }
 
 func (p *c11) Rule() string {
-	return "exhaustive: parameters 0..4 x arguments 0..6 x call form {_self.m, alias.m, from-import m, from-import m as n} x use of the result {printed, assigned and printed twice, concatenated, passed to a recording function and a filter, inside a loop, inside a set-capture and a filter section} (840 cases, each compared with the reference model AND with the _self form of the same coordinates); unknown macros (call on an import alias, with and without arguments, inside a loop; from-import of an unknown name, with alias; import of a missing template) must fail; random: 2..5 macros split between the template and a library, bodies calling earlier macros of the same home (acyclic), 1..4 calls in random forms and uses. Every macro body prints each parameter and calls a recording function, so binding by position, null for missing, dropping of surplus arguments and Context.Name() (defining template) are all visible. Non-trivial: all enumerated coordinates are distinct by construction; random cases by their call list."
+	return "exhaustive: parameters 0..4 x arguments 0..6 x call form {_self.m, alias.m, from-import m, from-import m as n, from-import m under the name of a registered function} x use of the result {printed, assigned and printed twice, concatenated, passed to a recording function and a filter, inside a loop, inside a set-capture and a filter section, twice in a row and concatenated with itself, in a loop and again after it, through ONE import statement executed three times with a computed library name} (1575 cases, each compared with the reference model AND with the _self form of the same coordinates); unknown macros (call on an import alias, with and without arguments, inside a loop; from-import of an unknown name, with alias; import of a missing template) must fail; terminating recursion (linear, two inner calls, mutual; depth 0..4; defined in the template or in a library that imports itself) where every level prints its parameters again after the inner call returned; random: 2..5 macros split between the template and a library, bodies calling earlier macros of the same home (acyclic), 1..4 calls in random forms and uses. Every macro body prints each parameter and calls a recording function, so binding by position, null for missing, dropping of surplus arguments and Context.Name() (defining template) are all visible. Non-trivial: all enumerated coordinates are distinct by construction; random cases by their call list."
 }
 
 func (p *c11) Assumptions() []string {
